@@ -38,8 +38,13 @@ def scanEscape (inClass : Bool) (s : List Char) : Except Res (List Char × List 
   | c :: rest =>
     if '0' ≤ c ∧ c ≤ '7' then
       -- octal run
-      let digits := s.takeWhile (fun d => '0' ≤ d ∧ d ≤ '7')
-      let rest' := s.dropWhile (fun d => '0' ≤ d ∧ d ≤ '7')
+      -- at most three digits, and a third one only while the first two stay below \40 (fix 3e2d17a9: Annex B's
+      -- LegacyOctalEscapeSequence; before, every following octal digit was consumed)
+      let run := s.takeWhile (fun d => '0' ≤ d ∧ d ≤ '7')
+      let two : Nat := (run.take 2).foldl (fun v d => v * 8 + (d.toNat - 48)) 0
+      let n := if run.length ≥ 3 ∧ two < 32 then 3 else min run.length 2
+      let digits := s.take n
+      let rest' := s.drop n
       let value : Nat := digits.foldl (fun v d => v * 8 + (d.toNat - 48)) 0
       if digits.length = 1 then
         if value ≠ 0 then .error .nonfatal else .ok (['\\', '0'], rest')
